@@ -288,25 +288,34 @@ Definition vr_build (uid : nat) (r : rep) (close : list (nat * nat)) : rep * res
   bindR (add_named_points (empty_rep uid) ss)
         (fun vr _ => add_bases vr (map (fun ij => [nth (fst ij) ss (NInt 0); nth (snd ij) ss (NInt 0)]) close)).
 
-Definition emb_positionOf (w : world) (e : emb) (s : name) : emb * res (list coord) :=
+(* Embedding.positionSimplex / positionOf / clearPositions as a state machine over the cache;
+   `ord` is what complex().orderOf(s) answers *)
+Definition emb_positionSimplex (e : emb) (s : name) (p : list coord) : res emb :=
+  if negb (length p =? e_dim e) then Raise ValueError
+  else Ok (mkEmb (e_cx e) (e_dim e) (assoc_set s p (e_pos e)) (e_calls e)).
+Definition emb_clear (e : emb) : emb := mkEmb (e_cx e) (e_dim e) [] (e_calls e).
+Definition emb_read (ord : res nat) (e : emb) (s : name) : emb * res (list coord) :=
+  match ord with
+  | Raise x => (e, Raise x)
+  | Ok 0 =>
+      match assoc s (e_pos e) with
+      | Some p => (e, Ok p)
+      | None => let p := repeat zero_coord (e_dim e) in       (* computePositionOf: the origin *)
+                (mkEmb (e_cx e) (e_dim e) (e_pos e ++ [(s, p)]) (e_calls e ++ [s]), Ok p)
+      end
+  | Ok _ => (e, Raise ValueError)
+  end.
+Definition emb_order (w : world) (e : emb) (s : name) : res nat :=
   match vget (w_vars w) (e_cx e) with
   | Some o =>
       match rep_of o with
-      | None => (e, Raise TypeError)
-      | Some r =>
-          match (match o with OFilt f => f_orderOf f s | _ => orderOf r s end) with
-          | Raise x => (e, Raise x)
-          | Ok 0 =>
-              match assoc s (e_pos e) with
-              | Some p => (e, Ok p)
-              | None => let p := repeat zero_coord (e_dim e) in       (* computePositionOf: the origin *)
-                        (mkEmb (e_cx e) (e_dim e) (e_pos e ++ [(s, p)]) (e_calls e ++ [s]), Ok p)
-              end
-          | Ok _ => (e, Raise ValueError)
-          end
+      | None => Raise TypeError
+      | Some r => match o with OFilt f => f_orderOf f s | _ => orderOf r s end
       end
-  | None => (e, Raise TypeError)
+  | None => Raise TypeError
   end.
+Definition emb_positionOf (w : world) (e : emb) (s : name) : emb * res (list coord) :=
+  emb_read (emb_order w e s) e s.
 
 Definition exec (w : world) (c : cmd) : world * outcome :=
   match c with
@@ -577,8 +586,10 @@ Definition exec (w : world) (c : cmd) : world * outcome :=
   | CPos e s p =>
       match vget (w_vars w) e with
       | Some (OEmb em) =>
-          if negb (length p =? e_dim em) then (w, Err ValueError)
-          else (set_var w e (OEmb (mkEmb (e_cx em) (e_dim em) (assoc_set s p (e_pos em)) (e_calls em))), OkV VUnit)
+          match emb_positionSimplex em s p with
+          | Raise x => (w, Err x)
+          | Ok em' => (set_var w e (OEmb em'), OkV VUnit)
+          end
       | _ => (w, Err TypeError)
       end
   | CGetPos e s =>
@@ -610,7 +621,7 @@ Definition exec (w : world) (c : cmd) : world * outcome :=
       end
   | CClear e =>
       match vget (w_vars w) e with
-      | Some (OEmb em) => (set_var w e (OEmb (mkEmb (e_cx em) (e_dim em) [] (e_calls em))), OkV VUnit)
+      | Some (OEmb em) => (set_var w e (OEmb (emb_clear em)), OkV VUnit)
       | _ => (w, Err TypeError)
       end
   | CLen e =>
